@@ -56,7 +56,7 @@ func Main() {
 			totalPoints += total + 1 - start
 			r.Extra("golden:"+plan.Name, map[string]int{"durable_units": total, "first_crash_point": start})
 		}
-		r.Cases("plan:"+plan.Name, n, core.Opts{Procs: 16, StallSec: 300}, func(c *core.Case) { netsim.CrashCase(c, plan, c.I) })
+		r.Cases("plan:"+plan.Name, n, core.Opts{Procs: 16, StallSec: 600, HangIsViolation: true}, func(c *core.Case) { netsim.CrashCase(c, plan, c.I) })
 	}
 	r.Extra("crash_points_enumerated", totalPoints)
 	r.Exhaustive(exhaustive)
